@@ -117,7 +117,7 @@ def run_job(job, ctx):
         r = rng("c08", job["seed"], job["i"])
         blocks = [_random_block(r) for _ in range(40)]
         eol = "\r\n" if job["i"] % 3 == 0 else "\n"
-        for c in vbatch.run_batch(ctx, blocks, "hash", "line-pattern", model, eol=eol, sig_prefix="C08", sets_fn=_sets):
+        for c in vbatch.run_batch(ctx, blocks, "hash", "line-pattern", model, eol=eol, bom=(job["i"] % 3 == 1), sig_prefix="C08", sets_fn=_sets):
             acc.add(c)
     return acc.to_cases(h(job))
 
